@@ -421,7 +421,7 @@ func c03Family(quick bool) []*gen.Grammar {
 				g := &gen.Grammar{Toks: c03Toks, AliasRefs: alias}
 				g.Rules = []gen.Rule{{Name: "s", Alts: []gen.Alt{
 					{Terms: []gen.Term{{X: tk(5)}, mkTerm(s1, tk(0)), {X: tk(2)}, mkTerm(s2, tk(1))}},
-					{Terms: []gen.Term{{X: tk(3)}, mkTerm(s2, tk(1)), {X: nt(1)}}},
+					{Terms: []gen.Term{{X: tk(3)}, mkTerm(s2, tk(1)), {X: tk(2)}, {X: nt(1)}}},
 				}}, elemRule}
 				out = append(out, g)
 			}
@@ -514,10 +514,12 @@ func c03Batch(tag string, gs []*gen.Grammar, L int, st *mc.Stats, mu *sync.Mutex
 			}
 			trees := cfg.Trees(w, 2)
 			if len(trees) != 1 {
-				mu.Lock()
-				st.HarnessError("grammar {%s}: sentence %v has %d derivation trees although lox reports no conflict", g.String(), w, len(trees))
-				mu.Unlock()
-				continue
+				// lox accepted a grammar in which a sentence has several
+				// derivation trees: it is not LALR(1), so a conflict went unreported
+				out = append(out, mc.Violation{Property: "C04", Check: "C03", Kind: "ambiguous-grammar-accepted", Size: len(g.String()),
+					Case:   mustJSON(c03Case{Grammar: g, Text: g.LoxText(), Input: toks}),
+					Detail: fmt.Sprintf("grammar {%s}: lox reports no conflict, but the sentence %v has %d derivation trees", g.String(), toks, len(trees))})
+				break
 			}
 			ref := &c03Ref{g: g, cfg: cfg, names: names}
 			ref.eval(trees[0])
